@@ -193,6 +193,10 @@ class CallMixin:
         return self._bind(m[0], m[1], OldView(ref) if old else ref, cell.cls)
 
     def _bind(self, attr, defcls, self_val, cls):
+        if isinstance(attr, property) and type(attr) is not property:
+            getter = type(attr).__dict__.get("__get__")
+            if isinstance(getter, types.FunctionType) and extract.info_for_function(getter) is not None:
+                return self.call_function(getter, [attr, self_val, cls], {}, type(attr))
         if isinstance(attr, property):
             if self_val is None:
                 return attr
